@@ -1,6 +1,12 @@
 (* Proofs for property C10 (packing and marks part). The packing functions are the generated
-   definitions of Gen/KafkaGen.v: a change of a shift width, a mask or the `+ 1` in
-   /repo/plugin/input/kafka/kafka.go changes those definitions and the proofs below stop checking. *)
+   definitions of Gen/KafkaGen.v: a change of a shift width, a factor, a mask or the `+ 1` in
+   /repo/plugin/input/kafka/kafka.go changes those definitions and the proofs below stop checking.
+   The bridge lemmas (closed forms, round trips) do NOT depend on the syntactic shape of the
+   generated bodies: [go_norm] unfolds them (whatever lets / SSA names they use), turns every
+   operator of Model/KafkaInt.v into div / mod / "mod 2^n" arithmetic over numerals, and
+   [go_solve] closes the goal with Z.div_mod_to_equations + lia. So `x << 16`, `x * 65536`,
+   `x * (1 << 16)`; `v & 0xFFFF`, `uint16(v)`; literals, named constants, extra locals, a struct built
+   by field assignments ... all lead to the same arithmetic facts. *)
 From Verif Require Import Base.Sx Base.GoSem Model.KafkaInt Gen.KafkaGen Model.Kafka.
 From Coq Require Import Lia ZifyBool.
 
@@ -9,91 +15,117 @@ Lemma shl_spec t a k : 0 <= k -> go_shl t a k = go_wrap t (a * 2 ^ k).
 Proof. intros Hk. unfold go_shl. now rewrite Z.shiftl_mul_pow2. Qed.
 Lemma shr_spec t a k : 0 <= k -> go_shr t a k = a / 2 ^ k.
 Proof. intros Hk. unfold go_shr. now rewrite Z.shiftr_div_pow2. Qed.
-Lemma and_mask16 t a : go_and t a 65535 = a mod 2 ^ 16.
-Proof. unfold go_and. change 65535 with (Z.ones 16). now rewrite Z.land_ones. Qed.
+Lemma mul_spec t a b : go_mul t a b = go_wrap t (a * b).
+Proof. reflexivity. Qed.
+(* x & (2^k - 1), mask on either side *)
+Lemma and_mask_r t a m k : 0 <= k -> m = Z.ones k -> go_and t a m = a mod 2 ^ k.
+Proof. intros Hk Hm. unfold go_and. subst m. now rewrite Z.land_ones. Qed.
+Lemma and_mask_l t a m k : 0 <= k -> m = Z.ones k -> go_and t m a = a mod 2 ^ k.
+Proof. intros Hk Hm. unfold go_and. subst m. now rewrite Z.land_comm, Z.land_ones. Qed.
 
-Ltac go_arith :=
-  unfold go_add, go_sub, go_conv, go_wrap, go_fits, go_min, go_max in *; cbn [ity_bits ity_signed] in *;
-  change (2 ^ 64) with 18446744073709551616 in *;
-  change (2 ^ (64 - 1)) with 9223372036854775808 in *;
-  change (2 ^ 32) with 4294967296 in *;
-  change (2 ^ (32 - 1)) with 2147483648 in *;
-  change (2 ^ 16) with 65536 in *;
-  change (2 ^ 48) with 281474976710656 in *;
-  change (2 ^ 47) with 140737488355328 in *.
+(* every [go_and] with a literal mask of the form 2^k - 1 becomes [_ mod 2^k]; any other mask is
+   left alone (and the arithmetic that follows does not know it) *)
+Ltac norm_masks :=
+  repeat match goal with
+  | |- context [go_and ?t ?a (Zpos ?p)] =>
+      let k := eval vm_compute in (Z.log2 (Zpos p + 1)) in
+      rewrite (and_mask_r t a (Zpos p) k) by (first [lia | vm_compute; reflexivity])
+  | |- context [go_and ?t (Zpos ?p) ?a] =>
+      let k := eval vm_compute in (Z.log2 (Zpos p + 1)) in
+      rewrite (and_mask_l t a (Zpos p) k) by (first [lia | vm_compute; reflexivity])
+  end.
+
+(* every closed power of two becomes a numeral, in the goal and in the hypotheses *)
+Ltac pow2_eval :=
+  repeat match goal with
+  | |- context [2 ^ ?k] =>
+      let v := eval vm_compute in (2 ^ k) in
+      match v with Zpos _ => change (2 ^ k) with v in * end
+  | Hyp : context [2 ^ ?k] |- _ =>
+      let v := eval vm_compute in (2 ^ k) in
+      match v with Zpos _ => change (2 ^ k) with v in * end
+  end.
 
 Ltac unfold_pack :=
   unfold disassemble_source_id, assemble_source_id, disassemble_offset, assemble_offset,
     gen_disassembleSourceID, gen_assembleSourceID, gen_disassembleOffset, gen_assembleOffset in *;
-  cbv zeta.
+  cbv beta zeta in *; cbn [fst snd] in *.
+
+Ltac go_arith :=
+  unfold go_mul, go_add, go_sub, go_conv, go_wrap, go_fits, go_min, go_max in *;
+  cbn [ity_bits ity_signed] in *;
+  pow2_eval.
+
+Ltac go_norm :=
+  unfold_pack;
+  rewrite ?shl_spec, ?shr_spec by lia;
+  norm_masks;
+  go_arith.
+
+Ltac go_solve :=
+  repeat match goal with
+         | |- (_, _) = (_, _) => f_equal
+         | |- _ /\ _ => split
+         end;
+  Z.div_mod_to_equations; lia.
 
 (* ---- pack_roundtrip ----------------------------------------------------------------------- *)
 Lemma source_id_roundtrip index partition :
   0 <= index < 2 ^ 48 -> 0 <= partition < 2 ^ 16 ->
   disassemble_source_id (assemble_source_id index partition) = (index, partition).
-Proof.
-  intros Hi Hp. unfold_pack.
-  rewrite !shl_spec, !shr_spec, !and_mask16 by lia.
-  go_arith. f_equal; Z.div_mod_to_equations; lia.
-Qed.
+Proof. intros Hi Hp. go_norm. go_solve. Qed.
 
 Lemma offset_roundtrip offset epoch :
   0 <= offset < 2 ^ 47 -> 0 <= epoch < 2 ^ 16 ->
   disassemble_offset (assemble_offset offset epoch) = (offset + 1, epoch).
-Proof.
-  intros Ho He. unfold_pack.
-  rewrite !shl_spec, !shr_spec, !and_mask16 by lia.
-  go_arith. f_equal; Z.div_mod_to_equations; lia.
-Qed.
+Proof. intros Ho He. go_norm. go_solve. Qed.
 
 (* closed forms, with Go's wrap-around explicit *)
 Lemma assemble_source_id_closed index partition :
   go_fits I64 index = true -> go_fits I32 partition = true ->
   assemble_source_id index partition = (index * 2 ^ 16 + partition) mod 2 ^ 64.
-Proof.
-  intros Hi Hp. unfold_pack. rewrite !shl_spec by lia.
-  go_arith. Z.div_mod_to_equations; lia.
-Qed.
+Proof. intros Hi Hp. go_norm. go_solve. Qed.
 
 Lemma assemble_offset_closed offset epoch :
   go_fits I64 offset = true -> go_fits I32 epoch = true ->
   assemble_offset offset epoch = (offset * 2 ^ 16 + epoch + 2 ^ 63) mod 2 ^ 64 - 2 ^ 63.
-Proof.
-  intros Ho He. unfold_pack. rewrite !shl_spec by lia.
-  go_arith. change (2 ^ 63) with 9223372036854775808. Z.div_mod_to_equations; lia.
-Qed.
+Proof. intros Ho He. go_norm. go_solve. Qed.
 
 Lemma assemble_in_range index partition offset epoch :
   0 <= index < 2 ^ 48 -> 0 <= partition < 2 ^ 16 -> 0 <= offset < 2 ^ 47 -> 0 <= epoch < 2 ^ 16 ->
   assemble_source_id index partition = index * 2 ^ 16 + partition /\
   assemble_offset offset epoch = offset * 2 ^ 16 + epoch.
-Proof.
-  intros Hi Hp Ho He. unfold_pack. rewrite !shl_spec by lia.
-  go_arith. split; Z.div_mod_to_equations; lia.
-Qed.
+Proof. intros Hi Hp Ho He. go_norm. go_solve. Qed.
 
 Lemma disassemble_source_id_closed sid :
   0 <= sid < 2 ^ 64 -> disassemble_source_id sid = (sid / 2 ^ 16, sid mod 2 ^ 16).
-Proof.
-  intros Hs. unfold_pack. rewrite !shr_spec, !and_mask16 by lia.
-  go_arith. f_equal; Z.div_mod_to_equations; lia.
-Qed.
+Proof. intros Hs. go_norm. go_solve. Qed.
 
 Lemma disassemble_offset_closed o :
   - 2 ^ 63 <= o < 2 ^ 63 - 2 ^ 16 -> disassemble_offset o = (o / 2 ^ 16 + 1, o mod 2 ^ 16).
-Proof.
-  intros Ho. unfold_pack. rewrite !shr_spec, !and_mask16 by lia.
-  go_arith. change (2 ^ 63) with 9223372036854775808 in *. f_equal; Z.div_mod_to_equations; lia.
-Qed.
+Proof. intros Ho. go_norm. go_solve. Qed.
 
 (* outside the stated range: LeaderEpoch = -1 ("unknown", records of the old message formats) *)
 Lemma epoch_unknown_marks_offset_itself offset :
   0 <= offset < 2 ^ 47 ->
   disassemble_offset (assemble_offset offset (-1)) = (offset, 65535).
+Proof. intros Ho. go_norm. go_solve. Qed.
+
+(* the data flow of Commit (gen_commit_target), on the event of an in-range record. First the
+   structural route (Commit calls the two unpacking functions: their round trips rewrite), then,
+   should Commit ever do the arithmetic itself, the arithmetic route. *)
+Lemma commit_target_of_event index partition offset epoch :
+  0 <= index < 2 ^ 48 -> 0 <= partition < 2 ^ 16 -> 0 <= offset < 2 ^ 47 -> 0 <= epoch < 2 ^ 16 ->
+  gen_commit_target (assemble_source_id index partition) (assemble_offset offset epoch) =
+  (index, partition, (offset + 1, epoch)).
 Proof.
-  intros Ho. unfold_pack.
-  rewrite !shl_spec, !shr_spec, !and_mask16 by lia.
-  go_arith. f_equal; Z.div_mod_to_equations; lia.
+  intros Hi Hp Ho He.
+  pose proof (source_id_roundtrip index partition Hi Hp) as R1.
+  pose proof (offset_roundtrip offset epoch Ho He) as R2.
+  unfold disassemble_source_id in R1. unfold disassemble_offset in R2.
+  unfold gen_commit_target. cbv beta zeta.
+  first [ rewrite ?R1, ?R2; cbn [fst snd]; reflexivity
+        | clear R1 R2; go_norm; go_solve ].
 Qed.
 
 (* ---- pack_injective ----------------------------------------------------------------------- *)
@@ -314,11 +346,9 @@ Lemma commit_of_record topics m r :
 Proof.
   intros Hlen (Ht & Hp & Ho & He).
   destruct (idx_id_by_topic topics (k_topic r) Ht) as (Hidx & Hid).
-  unfold commit, event_of, gen_commit_target. cbn [fst snd].
-  fold (disassemble_source_id (assemble_source_id (id_by_topic topics (k_topic r)) (k_part r))).
-  fold (disassemble_offset (assemble_offset (k_off r) (k_epoch r))).
-  rewrite source_id_roundtrip by lia. rewrite offset_roundtrip by lia.
-  cbn [fst snd]. rewrite Hidx. reflexivity.
+  unfold commit, event_of. cbn [fst snd].
+  rewrite commit_target_of_event by lia.
+  rewrite Hidx. reflexivity.
 Qed.
 
 Definition marks_of (rs : list krec) (m : marks) : marks :=
